@@ -18,6 +18,34 @@ type gateSet struct {
 	mu    sync.Mutex
 	gates map[*RecNode]chan struct{}
 	open  bool // open mode: every present and future gate is open
+	// sends whose events are held at EVERY node (overlap scenario): send id -> release channel
+	heldSends map[string]chan struct{}
+}
+
+// holdSend makes every node park events of the given Send until release is called.
+func (g *gateSet) holdSend(id string) (release func()) {
+	ch := make(chan struct{})
+	g.mu.Lock()
+	if g.heldSends == nil {
+		g.heldSends = map[string]chan struct{}{}
+	}
+	g.heldSends[id] = ch
+	g.mu.Unlock()
+	var once sync.Once
+	return func() {
+		once.Do(func() {
+			g.mu.Lock()
+			delete(g.heldSends, id)
+			g.mu.Unlock()
+			close(ch)
+		})
+	}
+}
+
+func (g *gateSet) held(prov string) chan struct{} {
+	g.mu.Lock()
+	defer g.mu.Unlock()
+	return g.heldSends[sendOf(prov)]
 }
 
 var closedChan = func() chan struct{} { c := make(chan struct{}); close(c); return c }()
@@ -92,8 +120,16 @@ func buildC03World(r *rt.Rand, gs *gateSet) (*World, []string) {
 		d := fmt.Sprintf("p%d:", p)
 		mk := func(id string, nt eventlogger.NodeType, wts [4]int) {
 			n := NewRecNode(w.Log, id, nt, r.Uint64(), wts)
-			if r.Intn(4) == 0 {
-				n.OnProcess = func(ctx context.Context, n *RecNode, e *eventlogger.Event, ent *Entry) { <-gs.gate(n) }
+			blocking := r.Intn(4) == 0
+			n.OnProcess = func(ctx context.Context, n *RecNode, e *eventlogger.Event, ent *Entry) {
+				if ch := gs.held(ent.Prov); ch != nil {
+					<-ch
+				}
+				if blocking {
+					<-gs.gate(n)
+				}
+			}
+			if blocking {
 				d += "B"
 			}
 			w.B.RegisterNode(eventlogger.NodeID(id), n)
@@ -232,6 +268,7 @@ func TestC03(t *testing.T) {
 			continue
 		}
 		N := pa.obs.Trace.Len()
+		c03Overlap(run, w, gs, cr, desc)
 		// cancel points: before the call, never, and every hook hit (quick: a seeded sample of 6)
 		points := []int{-1, 0}
 		if run.Quick() && N > 10 {
@@ -375,4 +412,107 @@ func TestC03(t *testing.T) {
 			}
 		}
 	}
+}
+
+func countSendGoroutines() int {
+	n := 0
+	for _, g := range rt.Goroutines() {
+		if g.Has("eventlogger.(*graph).process") || g.Has("eventlogger.(*graph).doProcess") {
+			n++
+		}
+	}
+	return n
+}
+
+// c03Overlap: Send B is parked inside its first node; a concurrent threshold setter and a second Send A
+// (never cancelled, nothing held) must not wait for B: A returns once ITS pipelines finished and leaves
+// no goroutine of its own behind, the setter returns, and a Send whose context is already cancelled
+// returns promptly as well.
+func c03Overlap(run *rt.Run, w *World, gs *gateSet, cr *rt.Rand, desc []string) {
+	gs.setOpen(true) // ordinary gates play no role here
+	defer gs.setOpen(false)
+	rt.WaitNoGoroutine(2*time.Second, "eventlogger.(*graph).process", "eventlogger.(*graph).doProcess")
+	var cancelB context.CancelFunc
+	// reserve B's id before it starts so that its very first node parks
+	sendCtr++
+	bid := fmt.Sprintf("s%d", sendCtr)
+	sendCtr--
+	release := gs.holdSend(bid)
+	defer release()
+	b := w.sendAsync("t0", 0, nil, 0, &cancelB)
+	defer cancelB()
+	if b.obs.SendID != bid {
+		run.Inconclusive("overlap: send id bookkeeping")
+		return
+	}
+	// wait until B is parked in a node
+	dl := time.Now().Add(2 * time.Second)
+	for w.Log.Running() == 0 && time.Now().Before(dl) {
+		select {
+		case <-b.done:
+			dl = time.Now()
+		default:
+			time.Sleep(50 * time.Microsecond)
+		}
+	}
+	if w.Log.Running() == 0 {
+		// B had nothing to run (no pipeline reached a node): nothing to overlap with
+		return
+	}
+	wit := func() any {
+		return map[string]any{"config": desc, "scenario": "overlap: Send B parked in a node; threshold setter; Send A", "B": b.obs.SendID}
+	}
+	base := countSendGoroutines()
+	// a threshold setter while B is in flight
+	setDone := make(chan struct{})
+	go func() {
+		defer close(setDone)
+		w.B.SetSuccessThreshold("t0", 0)
+		w.B.SetSuccessThresholdSinks("t0", 0)
+	}()
+	if cr.Bool() {
+		time.Sleep(time.Duration(cr.Intn(300)) * time.Microsecond)
+	}
+	// Send A: never cancelled, not held
+	var cancelA context.CancelFunc
+	a := w.sendAsync("t0", 0, cr.Fork(), 20, &cancelA)
+	defer cancelA()
+	if awaitSend(run, a, "overlap-other-send-in-flight", wit) {
+		for _, e := range w.Log.ForSend(a.obs.SendID) {
+			if e.Ret == 0 {
+				run.Violation("history-pattern:early-return", "overlap: Send A returned before its own node invocations had returned", wit())
+				break
+			}
+		}
+		// A's goroutines must be gone although B's are still there
+		dl := time.Now().Add(3 * time.Second)
+		n := countSendGoroutines()
+		for n > base && time.Now().Before(dl) {
+			time.Sleep(200 * time.Microsecond)
+			n = countSendGoroutines()
+		}
+		if n > base {
+			time.Sleep(200 * time.Millisecond)
+			if n2 := countSendGoroutines(); n2 > base {
+				run.Violation("goroutine-leak:overlap", fmt.Sprintf("after Send A returned and all its node invocations returned, %d goroutine(s) more than before A remain inside graph.process/doProcess (they wait for another Send's nodes)", n2-base), wit())
+			}
+		}
+		run.Add("overlap_sends_returned_while_other_in_flight", 1)
+	}
+	// a Send whose context is already cancelled returns promptly, too
+	var cancelC context.CancelFunc
+	c := w.sendAsync("t0", -1, nil, 0, &cancelC)
+	defer cancelC()
+	awaitSend(run, c, "cancelled-gates-closed", wit)
+	select {
+	case <-setDone:
+	case <-time.After(2 * time.Second):
+		// not a clause of C03 (the held node has not returned, so nothing promises the setter returns);
+		// recorded for the evidence only
+		run.Add("overlap_threshold_setter_waited_for_send", 1)
+	}
+	release()
+	awaitSend(run, b, "after-gates-open", wit)
+	rt.WaitNoGoroutine(5*time.Second, "eventlogger.(*graph).process", "eventlogger.(*graph).doProcess")
+	run.Eval("overlap|" + strings.Join(desc, ";"))
 }
